@@ -147,7 +147,7 @@ def run(ctx):
                 v = DISPLAY[col]
             elif r_ < 0.5:
                 v = rng.choice(SPELLINGS)
-            if not v or "*" in v or "?" in v or qlib.quote(v) is None:
+            if "*" in v or "?" in v or qlib.quote(v) is None:
                 continue
             atoms.append(dict(kind="str", col=col, opk=opk, text="%s %s %s" % (col, op, qlib.quote(v)), lit=v))
         elif kind == "bool":
